@@ -140,16 +140,17 @@ End Seq.
 (* ---------- the three space operations ---------- *)
 Section Ops.
 Context {T : Type} {N : Num T} {F : NumField T}.
-Variable lay : nat -> nat -> nat -> bool.
+Variable flg : nat -> bool * bool.
+Variable bdtf : nat -> bool.
 Variable icast : T -> T.
 
 Definition cast_of (fl : bool) : T -> T := if fl then (fun u => u) else icast.
 
 Lemma lincomb_leaf_ok (a b : T) :
-  leaf_ok (lincomb_leaf lay icast a b) (fun fl u v => map (cast_of fl) (vlin a u b v)) (fun _ => True).
+  leaf_ok (lincomb_leaf flg bdtf icast a b) (fun fl u v => map (cast_of fl) (vlin a u b v)) (fun _ => True).
 Proof.
   intros fl i1 i2 io s _ L12 Lo. unfold lincomb_leaf, cast_of. destruct fl.
-  - destruct (lincomb_impl_correct true (lay i1 i2 io) a b i1 i2 io s L12 Lo) as (s' & E & Ho & Hf).
+  - destruct (lincomb_impl_correct true (bdtf io) (flg i1) (flg i2) (flg io) a b i1 i2 io s L12 Lo) as (s' & E & Ho & Hf).
     exists s'. rewrite map_id. auto.
   - apply lincomb_impl_nonfloating. exact L12.
 Qed.
@@ -169,7 +170,7 @@ Qed.
 Theorem ps_lincomb_correct (sp : space) (a b : T) (x1 x2 out : elem) (s : store T) :
   conf sp x1 -> conf sp x2 -> conf sp out ->
   wf (quads sp x1 x2 out) -> lens_ok s (quads sp x1 x2 out) ->
-  exists s', ps_lincomb lay icast sp a x1 b x2 out s = Ok s'
+  exists s', ps_lincomb flg bdtf icast sp a x1 b x2 out s = Ok s'
     /\ (forall q, In q (quads sp x1 x2 out) ->
           s' (q_out q) = map (cast_of (q_fl q)) (vlin a (s (q_x1 q)) b (s (q_x2 q))))
     /\ (forall j, ~ In j (map q_out (quads sp x1 x2 out)) -> s' j = s j).
